@@ -34,6 +34,14 @@ type seqCase struct {
 	// Warm: a well-formed reply of the same operation from ANOTHER controller, received by another client just before this
 	// call: 'the content of any other datagram never appears in a returned result' includes datagrams of earlier calls
 	Warm []byte `json:"warm,omitempty"`
+	// socket layer: FixedPort - the client has a fixed bind port; Prev - a call of ANOTHER operation to the same controller is
+	// made (and answered properly) on the same client just before, and the class 'previous-reply' in this call's sequence is
+	// an exact copy of the reply that call accepted (a duplicate that arrives late: S's serial, another function code);
+	// Proto - the protocol string of a directly addressed UDP controller ("udp", "", "any", "UDP" ...: everything but "tcp"
+	// means UDP) while the same address also accepts TCP connections and answers them properly
+	FixedPort bool   `json:"fixed_port,omitempty"`
+	Prev      []byte `json:"previous_reply,omitempty"`
+	Proto     string `json:"protocol,omitempty"`
 }
 
 var classNames = []string{"valid", "short", "long", "other-serial", "serial-0", "wrong-code", "wrong-id", "id-0x19", "malformed", "malformed-strict", "two-faults", "foreign"}
@@ -132,11 +140,23 @@ const ctrlPort = 60000
 
 func cfgFor(c seqCase, ep [4]byte, port uint16, timeoutMs int) hook.ClientCfg {
 	cfg := hook.ClientCfg{TimeoutMs: timeoutMs, BindIP: [4]byte{127, 0, 0, 1}}
+	if c.FixedPort && c.Layer == "socket" {
+		if p, err := farm.FreePort(cfg.BindIP); err == nil {
+			cfg.BindPort = p
+		}
+	}
+	proto := "udp"
+	if c.Proto != "" && c.Proto != "tcp" {
+		proto = c.Proto
+		if proto == "(empty)" {
+			proto = ""
+		}
+	}
 	switch c.Path {
 	case 0:
 		cfg.HasBroadcast, cfg.BroadcastIP, cfg.BroadcastPort = true, ep, port
 	case 1:
-		cfg.Devices = []hook.DeviceCfg{{Serial: c.Call.Serial, HasAddr: true, IP: ep, Port: port, Protocol: "udp"}}
+		cfg.Devices = []hook.DeviceCfg{{Serial: c.Call.Serial, HasAddr: true, IP: ep, Port: port, Protocol: proto}}
 	case 2:
 		cfg.Devices = []hook.DeviceCfg{{Serial: c.Call.Serial, HasAddr: true, IP: ep, Port: port, Protocol: "tcp"}}
 	}
@@ -174,6 +194,23 @@ func judge(c seqCase, v verdict, res api.Result, consumed int) *rp.Fail {
 		}
 	}
 	return nil
+}
+
+// validFor: a well-formed all-zero-payload reply to the request (echo fields filled in)
+func validFor(c spec.Call, req []byte) []byte {
+	l, ok := spec.Responses[c.Op]
+	if !ok || len(req) != 64 {
+		return nil
+	}
+	b := make([]byte, 64)
+	spec.Header(b, 0x17, l.Code, c.Serial)
+	switch c.Op {
+	case "GetCardByID":
+		spec.PutLE32(b[8:], c.Card)
+	case "GetTimeProfile":
+		b[8] = c.Profile
+	}
+	return b
 }
 
 func accepted(c spec.Call) spec.Call {
@@ -258,6 +295,13 @@ func runSocket(c seqCase, scale int) *rp.Fail {
 		udp, err = f.UDP(ip, 0, farm.Script(actions))
 		if err == nil {
 			port = udp.Addr.Port()
+			if c.Path == 1 {
+				// the controller also accepts TCP on the same port number and would answer there properly: a call that is
+				// configured for UDP has no business asking
+				f.TCP(ip, port, farm.ScriptTCP(func(r farm.Received) []farm.Action {
+					return []farm.Action{{Data: validFor(c.Call, r.Data)}}
+				}))
+			}
 		}
 	}
 	if err != nil {
@@ -265,6 +309,27 @@ func runSocket(c seqCase, scale int) *rp.Fail {
 		return nil
 	}
 	u := hook.Real(cfgFor(c, ip, port, timeout))
+	if len(c.Prev) == 64 && c.Path != 2 {
+		prevOp := "GetTime"
+		if c.Call.Op == "GetTime" {
+			prevOp = "GetEventIndex"
+		}
+		prev := append([]byte(nil), c.Prev...)
+		prev[1] = spec.Responses[prevOp].Code
+		if udp != nil {
+			udp.SetHandler(farm.Script(func(r farm.Received) []farm.Action { return []farm.Action{{Data: prev}} }))
+			api.Invoke(u, api.Case{Call: spec.Call{Op: prevOp, Serial: c.Call.Serial}})
+			udp.SetHandler(farm.Script(actions))
+			udp.ClearLog()
+		}
+		// the copy in this call's sequence is byte-identical to what that call accepted
+		for i, d := range c.Datagrams {
+			if len(d) == 64 && string(d) == string(c.Prev) {
+				c.Datagrams[i] = prev
+			}
+		}
+		c.Prev = prev
+	}
 	started := time.Now()
 	res := api.Invoke(u, api.Case{Call: accepted(c.Call), V: api.Variant{WeekPresent: [7]bool{true, true, true, true, true, true, true}}})
 	elapsed := time.Since(started)
@@ -500,6 +565,23 @@ func genSeq(layer string, maxLen int) func(t *rapid.T) seqCase {
 				via = rapid.IntRange(0, 2).Draw(t, "via") == 0
 			}
 			c.Via = append(c.Via, via)
+		}
+		if layer == "socket" && c.Call.Op != "SetAddress" {
+			c.FixedPort = rapid.IntRange(0, 2).Draw(t, "fixed.port") == 0
+			if c.Path == 1 {
+				c.Proto = rapid.SampledFrom([]string{"udp", "udp", "any", "(empty)", "UDP", "auto"}).Draw(t, "proto")
+			}
+			if c.Path != 2 && len(c.Datagrams) > 0 && rapid.IntRange(0, 3).Draw(t, "previous") == 0 {
+				// one datagram of the sequence becomes an exact copy of the reply a previous call (another operation) accepted
+				prev := make([]byte, 64)
+				spec.Header(prev, 0x17, 0x32, c.Call.Serial)
+				for i := 8; i < 15; i++ {
+					prev[i] = byte(0x10 + i)
+				}
+				prev[8] = 0x20
+				c.Prev = prev
+				c.Datagrams[rapid.IntRange(0, len(c.Datagrams)-1).Draw(t, "previous.at")] = prev
+			}
 		}
 		if layer == "hook" && rapid.Bool().Draw(t, "warm") {
 			other := c.Call
